@@ -97,6 +97,10 @@ ALL_FEATURES = [
                             # several times as globals; functions that build values of one of them
     "alias_hops",           # alias chains over usize consts (na :: n1;), array types named by a
                             # global (AT :: [na]i64;), enum discriminants taken from consts
+    "local_comptime_aggs",  # comptime blocks *inside function bodies* whose results are aggregates
+                            # (arrays, structs): they become data objects of the function
+    "type_fields",          # comptime globals holding a struct with a `type` member, compared with
+                            # the types themselves at runtime
     "indirect_refs",        # variants may name a definition of another file *through a third file*:
                             # imp1.imp2.name
 ]
@@ -1907,6 +1911,75 @@ class _Gen:
         self.p.add(it)
         self.int_fns.append(name)
 
+    def mk_local_ct_agg(self):
+        r = self.rnd
+        name = self.fresh("la")
+        it = Item(name, "fn")
+        it.is_function = True
+        n = r.randint(2, 4)
+        elems = [self.iexpr(it, None, depth=1, allow_calls=False) for _ in range(n)]
+        extra = None
+        if self.struct_makers and r.random() < 0.5:
+            mk = r.choice(sorted(self.struct_makers))
+            sn = self.struct_makers[mk]
+            it.deps |= {mk, sn}
+            it.deps |= self.p.by_name[sn].deps
+            extra = (mk, sn, self.lit(0, 6))
+
+        def render(ref):
+            body = ["tbl := comptime { i64.[%s] };" % ", ".join("(%s) %% 997" % e(ref) for e in elems)]
+            terms = ["tbl[usize.(a %% %d)]" % n, "tbl[0]"]
+            if extra:
+                mk, sn, arg = extra
+                body.append("rec := comptime { %s(%s) };" % (ref(mk), arg))
+                terms.append(self.digest_text(("named", sn), ref, "rec"))
+            return "%s :: (a: i64) -> i64 {\n%s    (%s) %% 997\n}" % (
+                name, "".join("    %s\n" % b for b in body), " + ".join(terms))
+
+        it.render = render
+        arg = r.randint(0, 9)
+        it.uses = lambda ref, tmp: ["emit(%s(%d));" % (ref(name), arg)]
+        self.p.add(it)
+        self.int_fns.append(name)
+
+    def mk_type_field(self):
+        r = self.rnd
+        first = getattr(self, "wrapper_struct", None) is None
+        if first:
+            wr = self.fresh("Wr")
+            it = Item(wr, "struct")
+            it.render = lambda ref: "%s :: struct { t: type, n: i32 };" % wr
+            self.p.add(it)
+            self.wrapper_struct = wr
+            self.wrapped = []
+        wr = self.wrapper_struct
+        while len(self.structs) + len(self.distincts) < 2:
+            self._plain_int_struct()
+        cands = sorted(self.structs) + sorted(self.distincts)
+
+        def add_wrapper():
+            unused = [c for c in cands if c not in self.wrapped] or cands
+            t1 = r.choice(unused)
+            self.wrapped.append(t1)
+            name = self.fresh("wv")
+            it = Item(name, "comptime_wrapper")
+            it.deps |= {wr, t1}
+            k = r.randint(1, 9)
+            it.render = lambda ref: "%s :: comptime { %s.{ t = %s, n = %d } };" % (name, ref(wr), ref(t1), k)
+            t2 = r.choice([c for c in cands if c != t1])
+
+            def uses(ref, tmp):
+                return ["if %s.t == %s { emit(%d); } else { emit(0); }" % (ref(name), ref(t1), 100 + k),
+                        "if %s.t == %s { emit(%d); } else { emit(0); }" % (ref(name), ref(t2), 200 + k),
+                        "emit(i64.(%s.n));" % ref(name)]
+
+            it.uses = uses
+            self.p.add(it)
+
+        add_wrapper()
+        if first:
+            add_wrapper()
+
     def build(self):
         self.add_prelude()
         r = self.rnd
@@ -1992,6 +2065,10 @@ class _Gen:
             menu.append(("generic_enum", self.mk_generic_enum, 3))
         if "alias_hops" in f and "usize_sizes" in f:
             menu.append(("array_type_alias", self.mk_array_type_alias, 2))
+        if "local_comptime_aggs" in f:
+            menu.append(("local_ct_agg", self.mk_local_ct_agg, 2))
+        if "type_fields" in f and ("structs" in f or "distinct" in f):
+            menu.append(("type_field", self.mk_type_field, 2))
         if "untyped_consts" in f:
             menu.append(("untyped_const", self.mk_untyped_const, 2))
         if "const_arrays" in f:
